@@ -460,7 +460,34 @@ def all_small_indices(n_entries_max=2):
                         yield shape, extra + list(combo)
 
 
+TRACED_FORMS = {
+    'algopy.transpose(x, None)': lambda v: algopy.transpose(v, None), 'algopy.transpose(x, axes=None)': lambda v: algopy.transpose(v, axes=None),
+    'x.transpose(None)': lambda v: v.transpose(None), 'x.transpose()': lambda v: v.transpose(), 'x.conj()': lambda v: v.conj(),
+    'x.conjugate()': lambda v: v.conjugate(),
+}
+
+
+def traced_form_fails(case):
+    """call forms of NumPy's signatures that the polynomial accepts are accepted on a traced polynomial, with the same value"""
+    x = np.array(case['x'])
+    f = TRACED_FORMS[case['form']]
+    want = f(UTPM(x.copy()))
+    from algopy import CGraph, Function
+    cg_ = CGraph()
+    try:
+        ft = f(Function(UTPM(x.copy())))
+    except Exception as ex:
+        return 'traced-form-exception: %s works on the polynomial but raises %s on the traced polynomial' % (case['form'], type(ex).__name__ + ':' + str(ex)[:60])
+    finally:
+        cg_.trace_off()
+    if not isinstance(ft, Function) or ft.x.data.shape != want.data.shape or not np.array_equal(ft.x.data, want.data):
+        return 'traced-form: %s on the traced polynomial differs from the call on the polynomial' % case['form']
+    return None
+
+
 def replay_case(ctx, case):
+    if case.get('op') == 'traced-form':
+        return traced_form_fails(case)
     if case.get('op') == 'utpclass-table':
         import utpcheck
         return utpcheck.replay(case)
@@ -477,6 +504,14 @@ def run(ctx):
     import utpcheck
     utpcheck.run(ctx, 'C13')
     rng = ctx.rng
+    for form_ in sorted(TRACED_FORMS):
+        x_ = rand_coeffs(rng, (2, 2, 2, 3), -2, 2)
+        case = {'op': 'traced-form', 'form': form_, 'D': 2, 'P': 2, 'x': (x_ + 0.5j * x_[::-1]) if 'conj' in form_ else x_}
+        ctx.evaluations += 1
+        ctx.count('traced-call-form')
+        f_ = traced_form_fails(case)
+        if f_:
+            ctx.report(case, 'failure', f_)
 
     def do(case, f):
         ctx.evaluations += 1
